@@ -8,6 +8,8 @@
 //! configuration).  The output holds one JSON object per executed operation:
 //! `{"op":…, "ret":…, "st":…}` — the operation, what the code returned, and the projected state
 //! after it.  A panic of the code under test is recorded as `"ret":{"panic":"…"}`.
+mod handler;
+mod mutate;
 mod seq;
 mod util;
 
@@ -27,6 +29,7 @@ fn main() {
             match comp {
                 "lru" => seq::lru::replay(&behaviours, &mut out),
                 "kb" => seq::kb::replay(&behaviours, &mut out),
+                "handler" => handler::run_behaviours(&behaviours, &mut out),
                 _ => Err(format!("unknown component {comp}")),
             }
         }
